@@ -54,6 +54,7 @@ def gen_case(rng, index, tier):
         arg['spelling'] = './' + arg['spelling']
     opts, stdin, env_extra, optclass = c01.pick_options(
         L, rng, workdirs, [arg], index, allowed=set(OPTS))
+    c01.add_stale(L, rng, [arg], index, p=0.25)
     case = L.desc()
     case['env'] = dict(case['env'], **env_extra)
     case['args'] = [arg]
